@@ -358,6 +358,12 @@ PROPS["C17"] = {
         {"spec": "BufferedOps.tla", "cfg": "BufferedOps_thorough.cfg", "tier": "thorough", "timeout": 3000},
         {"spec": "BufferedOps.tla", "cfg": "BufferedOps_neg_once.cfg", "expect": "violation"},
         {"spec": "BufferedOps.tla", "cfg": "BufferedOps_neg_stop.cfg", "expect": "violation"},
+        # the reprovide schedule under region merges: as coded the hard bound of two cycles holds ...
+        {"spec": "ScheduleMerge.tla", "cfg": "ScheduleMerge_ascoded.cfg"},
+        # ... the documented bound interval + delay does not (known finding D19; must be refuted) ...
+        {"spec": "ScheduleMerge.tla", "cfg": "ScheduleMerge_d19.cfg", "expect": "violation"},
+        # ... and would hold if the merged prefix inherited the earliest due time it replaces
+        {"spec": "ScheduleMerge.tla", "cfg": "ScheduleMerge_fixed.cfg"},
     ],
     "drivers": [{"test": "TestSweep", "trace_spec": "SweepTrace.tla", "trace_cfg": "SweepTrace.cfg", "inv_cfg": {"C17": "SweepTrace_C17.cfg"}}],
     "assumptions": [
@@ -1537,8 +1543,19 @@ def mut_c14_constructor_leak(run):
     return None
 
 
+def mut_c14_subscription_leak(run):
+    if not _c14(run):
+        return None
+    for i, ev in enumerate(run):
+        if ev["e"] == "Quiesce" and not ev["pending"]:
+            r = copy.deepcopy(run)
+            r[i]["subsleft"] = 1
+            return r
+    return None
+
+
 MUTATIONS = {
-    "C14": [mut_c14_left, mut_c14_close_hangs, mut_c14_op_hangs, mut_c14_op_panics, mut_c14_constructor_leak],
+    "C14": [mut_c14_left, mut_c14_close_hangs, mut_c14_op_hangs, mut_c14_op_panics, mut_c14_constructor_leak, mut_c14_subscription_leak],
     "C17": [mut_c17_wrong_recipient, mut_c17_missing_recipient, mut_c17_never_reprovided, mut_c17_stopped_readvertised, mut_c17_stale_addrs],
     "C15": [mut_c15_wrong_half, mut_c15_lan_preferred, mut_c15_dup_provider, mut_c15_over_count, mut_c15_private_referral, mut_c15_stored_private, mut_c15_advertised_loopback, mut_c15_union],
     "C16": [mut_c16_unsorted, mut_c16_not_nearest, mut_c16_stranger, mut_c16_group, mut_c16_crawl_twice, mut_c16_no_outcome, mut_c16_unreached, mut_c16_op_panic, mut_c16_swap_mix],
